@@ -18,6 +18,7 @@ import (
 	"io"
 	"net"
 	"net/netip"
+	"strings"
 	"testing"
 
 	"github.com/eapache/channels"
@@ -41,6 +42,209 @@ func (c *c05Conn) Read(b []byte) (int, error) {
 	return n, nil
 }
 func (c *c05Conn) Close() error { return nil }
+func (c *c05Conn) LocalAddr() net.Addr {
+	return &net.TCPAddr{IP: net.IPv4(10, 0, 0, 254).To4(), Port: 179}
+}
+func (c *c05Conn) RemoteAddr() net.Addr {
+	return &net.TCPAddr{IP: net.IPv4(10, 0, 0, 1).To4(), Port: 40000}
+}
+
+// ---- sessions: the receive-path bound must be the one the CURRENT session negotiated
+
+// what the peer's OPEN of one session carries
+type c05Sess struct {
+	ext, as4, gr, rr, llgr, addpath bool
+	split                            bool // every capability in an optional parameter of its own
+	unknownParam                     bool // an unknown optional parameter in front
+	order                            []int
+}
+
+func (x c05Sess) String() string {
+	return fmt.Sprintf("ext%d-as4%d-gr%d-rr%d-llgr%d-ap%d-split%d-unk%d", c06B(x.ext), c06B(x.as4), c06B(x.gr), c06B(x.rr), c06B(x.llgr), c06B(x.addpath), c06B(x.split), c06B(x.unknownParam))
+}
+
+func c05BuildOpen(x c05Sess) *bgp.BGPMessage {
+	caps := []bgp.ParameterCapabilityInterface{bgp.NewCapMultiProtocol(bgp.RF_IPv4_UC)}
+	if x.rr {
+		caps = append(caps, bgp.NewCapRouteRefresh())
+	}
+	if x.as4 {
+		caps = append(caps, bgp.NewCapFourOctetASNumber(65001))
+	}
+	if x.ext {
+		caps = append(caps, bgp.NewCapExtendedMessage())
+	}
+	if x.gr {
+		caps = append(caps, bgp.NewCapGracefulRestart(false, true, 120, []*bgp.CapGracefulRestartTuple{bgp.NewCapGracefulRestartTuple(bgp.RF_IPv4_UC, true)}))
+	}
+	if x.llgr {
+		caps = append(caps, bgp.NewCapLongLivedGracefulRestart([]*bgp.CapLongLivedGracefulRestartTuple{bgp.NewCapLongLivedGracefulRestartTuple(bgp.RF_IPv4_UC, true, 3600)}))
+	}
+	if x.addpath {
+		caps = append(caps, bgp.NewCapAddPath([]*bgp.CapAddPathTuple{bgp.NewCapAddPathTuple(bgp.RF_IPv4_UC, bgp.BGP_ADD_PATH_BOTH)}))
+	}
+	if len(x.order) == len(caps) {
+		sh := make([]bgp.ParameterCapabilityInterface, len(caps))
+		for i, j := range x.order {
+			sh[i] = caps[j]
+		}
+		caps = sh
+	}
+	var params []bgp.OptionParameterInterface
+	if x.unknownParam {
+		params = append(params, &bgp.OptionParameterUnknown{ParamType: 99, Value: []byte{1, 2, 3}})
+	}
+	if x.split {
+		for _, c := range caps {
+			params = append(params, bgp.NewOptionParameterCapability([]bgp.ParameterCapabilityInterface{c}))
+		}
+	} else {
+		params = append(params, bgp.NewOptionParameterCapability(caps))
+	}
+	m, err := bgp.NewBGPOpenMessage(65001, 90, netip.AddrFrom4([4]byte{10, 0, 0, 1}), params)
+	if err != nil {
+		panic(err)
+	}
+	return m
+}
+
+func c05NumCaps(x c05Sess) int {
+	n := 1
+	for _, b := range []bool{x.rr, x.as4, x.ext, x.gr, x.llgr, x.addpath} {
+		if b {
+			n++
+		}
+	}
+	return n
+}
+
+// c05Sessions drives histories of 1-3 sessions through the REAL fsm.stateChange(ESTABLISHED) on one fsm and, in
+// every session, sends headers around both caps through recvMessageWithError.  The maximum is computed from the
+// OPEN of the session in progress only.
+func c05Sessions(t *testing.T, o *vOut, r *vRand, h *fsmHandler, failOnce func(string, map[string]any)) {
+	combos := []c05Sess{{ext: false, as4: false}, {ext: false, as4: true}, {ext: true, as4: false}, {ext: true, as4: true}}
+	var histories [][]c05Sess
+	for _, a := range combos {
+		histories = append(histories, []c05Sess{a})
+		for _, b := range combos {
+			histories = append(histories, []c05Sess{a, b})
+			for _, c := range combos {
+				histories = append(histories, []c05Sess{a, b, c})
+			}
+		}
+	}
+	extra := 60
+	if o.thorough {
+		extra = 600
+	}
+	for i := 0; i < extra; i++ { // random histories with the other capabilities and OPEN shapes varied too
+		n := 2 + r.intn(3)
+		hist := make([]c05Sess, n)
+		for k := range hist {
+			x := c05Sess{ext: r.chance(50), as4: r.chance(50), gr: r.chance(40), rr: r.chance(50), llgr: r.chance(20),
+				addpath: r.chance(30), split: r.chance(40), unknownParam: r.chance(20)}
+			if r.chance(50) {
+				x.order = r.perm(c05NumCaps(x))
+			}
+			hist[k] = x
+		}
+		histories = append(histories, hist)
+	}
+	types := []uint8{1, 2, 3, 4, 5, 0, 6}
+	big := bytes.Repeat([]byte{0xff}, 65535)
+	for hi, hist := range histories {
+		var bodies []string
+		var names []string
+		// whatever earlier sessions (the previous history, the first part of this test) left behind
+		flagBefore := r.chance(50)
+		h.fsm.extendedMessage.Store(flagBefore)
+		for si, x := range hist {
+			open := c05BuildOpen(x)
+			ob, err := open.Body.Serialize()
+			if err != nil {
+				t.Fatal(err)
+			}
+			bodies = append(bodies, c05Hex(ob))
+			names = append(names, x.String())
+			// the session comes up ...
+			h.fsm.conn = &c05Conn{}
+			h.fsm.recvOpen = open
+			if p := func() (s string) {
+				defer func() {
+					if e := recover(); e != nil {
+						s = fmt.Sprint(e)
+					}
+				}()
+				h.fsm.stateChange(bgp.BGP_FSM_ESTABLISHED, newfsmStateReason(fsmOpenMsgNegotiated, nil, nil))
+				return ""
+			}(); p != "" {
+				failOnce("panic:stateChange", map[string]any{"panic": p, "sessions": names})
+				return
+			}
+			o.stat(fmt.Sprintf("sess:position-%d:ext%d-as4%d", si+1, c06B(x.ext), c06B(x.as4)), 1)
+			// ... and receives
+			lens := []int{4096, 4097, 65535, 4098 + r.intn(61000), 19 + r.intn(4077), r.pick(19, 23, 4095, 65534, 5000)}
+			for _, declared := range lens {
+				for _, typ := range types {
+					if !(si == len(hist)-1) && r.chance(60) {
+						continue // earlier sessions are sampled, the last one is probed in full
+					}
+					hdr := bytes.Repeat([]byte{0xff}, 16)
+					hdr = binary.BigEndian.AppendUint16(hdr, uint16(declared))
+					hdr = append(hdr, typ)
+					stream := append(append([]byte{}, hdr...), big[:declared-19]...)
+					stream = append(stream, 0xee, 0xee, 0xee, 0xee)
+					conn := &c05Conn{data: stream}
+					reasonCh := make(chan fsmStateReason, 4)
+					var fm *fsmMsg
+					var err error
+					if p := func() (s string) {
+						defer func() {
+							if e := recover(); e != nil {
+								s = fmt.Sprint(e)
+							}
+						}()
+						fm, err = h.recvMessageWithError(conn, reasonCh)
+						return ""
+					}(); p != "" {
+						failOnce("panic:recvMessageWithError", map[string]any{"panic": p, "sessions": names, "declared": declared, "type": typ})
+						continue
+					}
+					maxLen := 4096
+					if x.ext && (typ == 2 || typ == 3 || typ == 5) {
+						maxLen = 65535
+					}
+					detail := map[string]any{"sessions_oldest_first": names, "session_in_progress": si + 1, "open_bodies": bodies,
+						"flag_left_by_earlier_sessions": flagBefore, "header": c05Hex(hdr), "declared": declared, "type": typ, "negotiated_maximum_of_this_session": maxLen,
+						"octets_taken_from_connection": conn.off, "fsm.extendedMessage": h.fsm.extendedMessage.Load()}
+					ans := "reject"
+					if fm != nil && fm.payload != nil {
+						ans = fmt.Sprintf("read %d", len(fm.payload)-19)
+						o.stat("sess:read", 1)
+						if len(fm.payload) > maxLen || conn.off > maxLen {
+							failOnce("recv-exceeds-negotiated-maximum", detail)
+						}
+					} else {
+						o.stat("sess:reject", 1)
+						if conn.off != 19 {
+							failOnce("recv-over-read:after-header-error", detail)
+						}
+						if declared <= maxLen && err != nil {
+							// marker and length field are fine: only the bound can have refused it
+							failOnce("recv-refuses-message-within-negotiated-maximum", detail)
+						}
+					}
+					o.ask(ans, "recvs %d %s %s", si+1, strings.Join(bodies, " "), c05Hex(hdr))
+				}
+			}
+			// the session goes down
+			h.fsm.stateChange(bgp.BGP_FSM_IDLE, newfsmStateReason(fsmReadFailed, nil, nil))
+		}
+		if hi < 2 {
+			o.sample(fmt.Sprintf("sessions %v", names))
+		}
+	}
+}
 
 func c05Hex(b []byte) string {
 	if len(b) == 0 {
@@ -217,4 +421,6 @@ func TestVerifC05Recv(t *testing.T) {
 			o.sample(fmt.Sprintf("recv ext=%v declared=%d typ=%d stream=%d octets consumed=%d", ext, declared, typ, len(stream), conn.off))
 		}
 	}
+
+	c05Sessions(t, o, r, h, failOnce)
 }
